@@ -517,7 +517,7 @@ func (t *tracer) walkChan(ch ssa.Value, depth int, walk func(ssa.Value, int), ad
 	sub := *t
 	sub.throughChans = false
 	mine := map[ssa.Value]bool{}
-	for _, r := range sub.origins(ch) {
+	for _, r := range sub.originsNH(ch) {
 		mine[r] = true
 	}
 	n := 0
@@ -530,7 +530,7 @@ func (t *tracer) walkChan(ch ssa.Value, depth int, walk func(ssa.Value, int), ad
 			case *ssa.Select:
 				for _, st := range x.States {
 					if st.Dir == types.SendOnly {
-						for _, r := range sub.origins(st.Chan) {
+						for _, r := range sub.originsNH(st.Chan) {
 							if mine[r] {
 								walk(st.Send, depth+1)
 								n++
@@ -543,7 +543,7 @@ func (t *tracer) walkChan(ch ssa.Value, depth int, walk func(ssa.Value, int), ad
 			default:
 				return
 			}
-			for _, r := range sub.origins(sentCh) {
+			for _, r := range sub.originsNH(sentCh) {
 				if mine[r] {
 					walk(sentVal, depth+1)
 					n++
@@ -557,7 +557,7 @@ func (t *tracer) walkChan(ch ssa.Value, depth int, walk func(ssa.Value, int), ad
 	}
 }
 
-// originsNH is origins, continued through the parameters of NEW helpers (see isNewHelper) that have a single call site:
+// originsNH is origins, continued through the parameters of NEW helpers (see isNewHelper), over all their call sites:
 // when a piece of an anchored function moves into such a helper, the values it worked on arrive as arguments.
 func (t *tracer) originsNH(v ssa.Value) []ssa.Value {
 	var out []ssa.Value
@@ -571,15 +571,19 @@ func (t *tracer) originsNH(v ssa.Value) []ssa.Value {
 			seen[r] = true
 			if prm, ok := r.(*ssa.Parameter); ok && depth < 3 {
 				h := prm.Parent()
-				if site, ok := soleCallSite(h).(ssa.CallInstruction); ok && isNewHelper(h) {
-					args := site.Common().Args
-					if site.Common().IsInvoke() {
-						args = nil
-					}
-					for i, fp := range h.Params {
-						if fp == prm && i < len(args) {
-							add(t.origins(args[i]), depth+1)
-							r = nil
+				if sites, asValue := callSitesOf(h); !asValue && len(sites) > 0 && isNewHelper(h) {
+					// the union over all call sites of the helper
+					for _, st := range sites {
+						site := st.(ssa.CallInstruction)
+						args := site.Common().Args
+						if site.Common().IsInvoke() {
+							args = nil
+						}
+						for i, fp := range h.Params {
+							if fp == prm && i < len(args) {
+								add(t.origins(args[i]), depth+1)
+								r = nil
+							}
 						}
 					}
 					if r == nil {
